@@ -168,9 +168,9 @@ func NamedOf(t types.Type) *types.Named {
 	if t == nil {
 		return nil
 	}
-	n, _ := Deref(t).(*types.Named)
+	n, _ := types.Unalias(Deref(t)).(*types.Named)
 	if n == nil {
-		n, _ = t.(*types.Named)
+		n, _ = types.Unalias(t).(*types.Named)
 	}
 	return n
 }
